@@ -316,9 +316,9 @@ def applyRec (S : Schema) : Nat → Field → Record → Val → Option Val
           if f.repeated then .list (cur.list! ++ [if f.pointer S then .some c else c])
           else if f.pointer S then .some c else c
       else if f.repeated then
-        (specDec S fuel id r.payload (Gen2.zeroMsg S (fuel + 1) id)).map fun x => .list (cur.list! ++ [x])
+        (specDec S fuel id r.payload (Gen2.zeroMsg S id)).map fun x => .list (cur.list! ++ [x])
       else if f.pointer S then
-        (specDec S fuel id r.payload (match cur with | .some x => x | _ => Gen2.zeroMsg S (fuel + 1) id)).map .some
+        (specDec S fuel id r.payload (match cur with | .some x => x | _ => Gen2.zeroMsg S id)).map .some
       else specDec S fuel id r.payload cur
 end
 
